@@ -90,3 +90,91 @@ PROPS = {
                        {"assumptions": ["partial: copy_preserves is checked by the merge-preserves-unknown stream and the Go round-trip oracle",
                                         "the generated-code leg (schemas A/A' through the compiler) belongs to C05's machinery"]}),
 }
+
+# ---------------------------------------------------------------- mpx properties
+
+MPX_FLAG = r" VIOL"
+
+def ev(*names):
+    return ["SpecVerif.TiesMpx.ev_%s_tie" % n for n in names]
+
+WAKE = ["SpecVerif.WakeProps." + t for t in ["inv_reachable", "parked_nonempty_wakes", "parked_closed_wakes",
+        "reader_never_stuck", "unrepaired_lost_wakeup", "sendLoop_order", "channel_Receive_order",
+        "rpc_client_Receive_order", "rpc_server_Receive_order"]]
+WAKE_TIES = ev("conn_sendLoop", "channel_Receive", "channel_ReceiveWait", "rpc_client_Receive", "rpc_server_Receive")
+
+def scen(name, *cmd, **kw):
+    d = {"name": name, "scenario": list(cmd)}
+    d.update(kw)
+    return d
+
+def mpx_prop(pid, theorems, ties, streams, go_cmds, extra=None, wake=False, drivers=()):
+    d = {
+        "level": "proof",
+        "audit_imports": ["SpecVerif.Props.%s" % pid, "SpecVerif.TiesMpx"] + (["SpecVerif.Props.Wake"] if wake else []),
+        "lean_targets": ["SpecVerif.Props.%s" % pid, "SpecVerif.TiesMpx"] + (["SpecVerif.Props.Wake"] if wake else []) + list(drivers),
+        "go_cmds": go_cmds,
+        "theorems": ["SpecVerif.%s.%s" % (pid, t) for t in theorems] + (WAKE if wake else []),
+        "ties": ties + (WAKE_TIES if wake else []),
+        "streams": streams,
+        "flag": MPX_FLAG,
+        "rule": "one evaluation = one scenario run against the real mpx/rpc packages over loopback TCP (or one script line run on the implementation and on the model); distinct non-trivial = distinct result lines ignoring run index and seed",
+        "trusted": ["the Go runtime scheduler, net and time packages: schedules are sampled (seeded yields at the hook points), never enumerated, on the implementation side; the theorems quantify over all schedules of the MODEL only",
+                    "event-sequence ties (TiesMpx): the extractor prints conditions, select cases, returns and marked calls of each mirrored function; statements it does not mark are not tied"],
+    }
+    d.update(extra or {})
+    return d
+
+PROPS.update({
+    "C03": mpx_prop("C03", ["frames_roundtrip", "frames_cut", "inv_run", "conservation", "delivered_prefix", "complete_after_close"],
+                    ev("channel_Send", "channel_SendAndClose", "channel_ReceiveAsync", "conn_send", "conn_receiveMessage", "conn_receiveData",
+                       "conn_receiveOpen", "conn_receiveClose", "reader_read", "state_close"),
+                    [scen("c03", "{bin}/mpxscen", "c03", "{seed}", "{tier}"), scen("wake", "{bin}/mpxscen", "wake", "{seed}", "{tier}")],
+                    ["mpxscen"], wake=True,
+                    extra={"assumptions": ["the byte stream between the two connection loops is reliable and ordered (TCP)",
+                                           "per-channel senders are serialised by the channel send mutex (tied: ev_channel_Send)",
+                                           "compression is a lossless stream transform (lz4 library, exercised by the scenarios, not modelled)"]}),
+    "C06": mpx_prop("C06", ["inv_reachable", "no_panic", "state_while_held", "late_frame_dropped", "unrepaired_counterexample"],
+                    ev("channel_acquire", "channel_tryAcquire", "channel_release", "channel_free", "channel_Free", "channel_receive",
+                       "conn_receiveClose", "conn_receiveData", "conn_receiveWindow", "conn_sendHandle", "conn_closeChannels", "conn_createChannel"),
+                    [scen("c06", "{bin}/mpxscen", "c06", "{seed}", "{tier}", "skip=5"), scen("probe", "{bin}/mpxprobe")],
+                    ["mpxscen", "mpxprobe"],
+                    extra={"assumptions": ["one Free per channel object by its owner (the user on the client side, the handler runner on the server side); a second Free is API misuse and panics by design",
+                                           "atomic operations of sync/atomic are linearizable"]}),
+    "C07": mpx_prop("C07", ["inv_run", "conservation", "ack_rule", "admit_bound", "only_sender_debits", "no_deadlock", "quiescent_admits"],
+                    ev("state_decrementSendWindow", "state_receiveWindow", "channel_Send", "channel_SendAndClose", "channel_ReceiveAsync"),
+                    [{"name": "flow", "gen": ["{bin}/mpxflow", "gen", "{seed}", "{tier}", "{stats}"], "go": ["{bin}/mpxflow"], "lean": ["{lean}/flowdriver"]}],
+                    ["mpxflow"], wake=True, drivers=["flowdriver"],
+                    extra={"rule": "one evaluation = one flow-control script (window W, sends of given sizes, consumes, close) run against a real client/server pair and on the Lean model; the answer lists for every step whether the Send was admitted immediately or parked and which window update the receiver emitted",
+                           "assumptions": ["eventual delivery of frames between the two sides (C03) and of wake-ups (WakeProps)"]}),
+    "C09": mpx_prop("C09", ["no_partial_frame", "close_wakes_every_waiter", "lateInv_run", "late_open_closed", "late_open_unrepaired"],
+                    ev("conn_close", "conn_closeChannels", "channel_free", "state_close", "conn_run", "conn_send", "conn_Channel",
+                       "state_decrementSendWindow", "conn_receiveOpen", "conn_createChannel", "reader_read", "channel_Receive", "channel_ReceiveWait"),
+                    [scen("c09", "{bin}/mpxfault", "c09", "{seed}", "{tier}"), scen("late", "{bin}/mpxlate")],
+                    ["mpxfault", "mpxlate"],
+                    extra={"assumptions": ["partial: 'returns within bounded time' and client recovery after the fault are decided by the fault-injection scenarios (every cut offset of recorded sessions), not by a theorem",
+                                           "the operating system reports a cut connection to Read/Write (or the peer's FIN/RST arrives)"]}),
+    "C11": mpx_prop("C11", ["serve_iff", "handlers_only_if_negotiated", "refused_never_served", "unnegotiated_never_served", "refusal_returns_error",
+                            "dispatch_total", "unknown_channel_dropped", "hostile_frames_confined", "unrepaired_refusal_served"],
+                    ev("conn_handshakeAsServer", "conn_run", "conn_receiveMessage", "conn_receiveOpen", "conn_receiveClose", "conn_receiveData",
+                       "conn_receiveWindow", "reader_read"),
+                    [scen("c11", "{bin}/mpxfault", "c11", "{seed}", "{tier}")],
+                    ["mpxfault"],
+                    extra={"assumptions": ["message payload parsing is total and memory-safe (C02)",
+                                           "partial: resource exhaustion by a peer announcing huge frames is bounded only by the 4 GiB frame-size field"]}),
+    "C19": mpx_prop("C19", ["backoff_bounds", "backoff_monotone", "inv_reachable", "exactly_one_flag", "conns_bounded", "closed_terminal",
+                            "close_idempotent", "no_conn_after_close", "no_dial_after_close", "ondemand_redials", "auto_rearms"],
+                    ev("client_Close", "client_conn", "client_onConnClosed", "client_onConnChannelsReached", "client_connect", "client_connect1",
+                       "client_connectRecover", "client_new", "reconnectTimeout"),
+                    [{"name": "backoff", "gen": ["sh", "-c", "{bin}/mpxclient backoff | cut -d' ' -f1,2"],
+                      "go": ["sh", "-c", "cat >/dev/null; {bin}/mpxclient backoff"], "lean": ["{lean}/flowdriver"]},
+                     scen("client", "{bin}/mpxclient", "scen", "{seed}", "{tier}")],
+                    ["mpxclient"], drivers=["flowdriver"],
+                    extra={"assumptions": ["critical sections under client.mu are atomic steps of the model (tied: mu.Lock/Unlock events)",
+                                           "real sleeps are only lower-bounded by the scenario check (timer resolution)"]}),
+    "C20": mpx_prop("C20", ["inv_reachable", "at_most_once", "failed_never_called", "ok_called_once", "unsub_never_called", "unrepaired_counterexample"],
+                    ev("conn_addClosed", "conn_notifyClosed", "conn_close", "conn_receiveOpen"),
+                    [scen("c20", "{bin}/mpxfault", "c20", "{seed}", "{tier}")],
+                    ["mpxfault"],
+                    extra={"assumptions": ["xsync.Map operations (Store, Delete, Range) are linearizable; Range visits every key present for the whole pass"]}),
+})
